@@ -7,6 +7,9 @@ C = {
  'C01': ("Unbounded Coq theorems (any hash H): on intact content the modelled piece reader yields exactly the L-sized chunks of the files' concatenation for every layout / piece length / handle table; chunk count = ceil(size/L), only the last chunk short, digest string length. Model tied to torf by a correspondence run (real iter_pieces vs extracted model) and by real Torrent.generate(threads=1..8) against sha1-of-chunks.",
          "The thread pipeline between reader and stored string is covered here only by real-thread runs (its model/theorems are C03's); SHA-1 abstract in theorems; Coq kernel, extract.py, extraction, harness trusted."),
 
+
+ 'C05': ("Unbounded Coq theorems for the two codec layers: (i) the model of flatbencode's stack-machine decoder inverts the encoder on every canonical value (strictly sorted dict keys; any nesting, unknown fields, arbitrary byte strings, integers of any magnitude within CPython's digit limit), hence re-encoding a canonical input reproduces its bytes; (ii) torf's decode_value inverts encode_value on every metainfo value in normal form; (iii) decimal integer printing/parsing are inverse. Tie: read_stream(x).dump()==x, read_stream(t.dump())==t and infohash stability on generated canonical torrents (extra keys everywhere, non-UTF-8 strings, non-BMP keys, 10^60 integers, creation dates incl. 0 and range ends), decoded metainfo and dumped bytes compared with the model.",
+         "The composition through read_stream's glue (pieces taken out before decoding, creation date <-> datetime, private -> bool) is covered by the correspondence run, not by a theorem; text is modelled by its UTF-8 bytes, so 'str sort order == byte sort order' (a property of UTF-8) is trusted and exercised; TZ=UTC."),
  'C06': ("Unbounded Coq theorems: the byte string hashed by infohash is a contiguous span of the dumped bytes - the value following the key 'info' (fuel-generic compositionality of the converter + encoder); every dictionary is emitted with strictly increasing raw-byte keys (no duplicates). The shapes of dump/convert/infohash/encode_dict/encode_value are fail-closed facts of the translator. Tie: model dump and hashed bytes compared with real torf on exportable metainfo of all converter-accepted value types and several object origins; an independent strict bencode parser locates the info span and checks sha1 == infohash == base32 == magnet hash == written file.",
          "SHA-1 and base32 are not modelled (identity of hashed bytes is what is proved); text is modelled by its UTF-8 bytes (order preservation of UTF-8 trusted); minimal-integer encoding and 'no trailing data' are checked by the strict parser on the implementation side, not proved."),
  'C07': ("Unbounded Coq theorems over the validate model driven by the rule table regenerated from the source: validate = Ok implies structural soundness (info dict, str/bytes name, positive 16KiB-multiple piece length, non-empty pieces of 20*ceil(size/L) bytes, exactly one of length/files, non-negative single-file length, well-formed announce URL); dump/infohash return only after successful validation; is_ready iff validate succeeds. 'MetainfoError and nothing else' is refuted on the faithful model (witness theorem: >4300-digit int) and the remaining exception leaks are known findings. Tie: ~1.5k structure-aware mutants per quick run compared between model and real torf on validate/is_ready/dump/infohash + independent soundness oracle on dumped bytes.",
